@@ -246,6 +246,40 @@ def _maybe_broadcast_other(op: str, n_other: int = 1):
                 if shape != other.shape:
                     other = other.expand(shape)
                 others_map.append(other)
+            from tensordict._lazy import LazyStackedTensorDict
+
+            if isinstance(self_expand, LazyStackedTensorDict):
+                # the entries of the members lack the stack dim: every member meets its own
+                # slice of the (now batch-shaped) operands
+                stack_dim = self_expand.stack_dim
+                others_unbind = [
+                    (
+                        other.unbind(stack_dim)
+                        if other is not None
+                        else (None,) * len(self_expand.tensordicts)
+                    )
+                    for other in others_map
+                ]
+                return type(self_expand)(
+                    *[
+                        getattr(td, op)(*_others, *args, **kwargs)
+                        for td, *_others in _zip_strict(
+                            self_expand.tensordicts, *others_unbind
+                        )
+                    ],
+                    stack_dim=stack_dim,
+                    stack_dim_name=self_expand._td_dim_name,
+                )
+            # self is dense (a lazy stack that had to be expanded is): so are its operands, the dense
+            # path pairs the entries by key
+            others_map = [
+                (
+                    other.to_tensordict()
+                    if isinstance(other, LazyStackedTensorDict)
+                    else other
+                )
+                for other in others_map
+            ]
             if any(isinstance(other, torch.Tensor) for other in others_map):
                 return self_expand._fast_apply(
                     lambda x: getattr(x, op)(
